@@ -192,7 +192,7 @@ class C12(Check):
             tags = [case["kind"]] if not front_reject else ["rejected_by_front_end"]
             if r.rc == 1 and not front_reject:
                 tags.append("runtime_error")
-            stats.record({"s": src}, (not front_reject) and (case["kind"] == "edge" or r.rc == 1), tags=tags,
+            stats.record({"s": src}, (not front_reject) and (case["kind"] in ("edge", "dispatch") or r.rc == 1), tags=tags,
                          sample={"main": src[src.rfind("function main"):], "rc": r.rc, "stderr": r.stderr_lines[-1:]} if case["kind"] == "edge" else None)
         if front_reject:
             return None
@@ -232,7 +232,13 @@ def _worker(widx, wseed, tier, check):
             why = check.run_case(case, sc, stats)
             if why is not None:
                 raise Failure(why)
-        for strat, n, tag in ((edge_case(), 450 if quick else 12000, "edge"), (mutated_profile_case(), 120 if quick else 5000, "mut")):
+        # dispatch-heavy accepted programs from C08's small families (overload matrix over a chain with generic levels and
+        # overrides; generic hierarchies with inherited destructors): here only "does not crash" is judged
+        from . import c08
+        ovl = c08.overload_case().map(lambda c: {"kind": "dispatch", "src": c08.overload_program(c)})
+        gen = c08.generic_case().map(lambda c: {"kind": "dispatch", "src": c08.generic_program(c)})
+        for strat, n, tag in ((edge_case(), 450 if quick else 12000, "edge"), (mutated_profile_case(), 120 if quick else 5000, "mut"),
+                              (ovl, 80 if quick else 3000, "ovl"), (gen, 40 if quick else 1500, "gen")):
             f = hyp_search(strat, prop, derive_seed(wseed, tag), n, stats)
             if f:
                 failures.append(f)
